@@ -2,7 +2,7 @@ import Drivers.RegWorld
 open Spine.Reg
 /-! Line protocol for the registry family (C08, C09, C10). One op per line, one answer per line.
     `cfg a b c d` (0/1 each) selects the member: delSubByDevice delBindByDevice unbindDisjunct dropBindsAnyPeer. -/
-def answer (cfg : Cfg) (s : St) (ws : List String) : Cfg × St × String :=
+def answer (cfg : Cfg) (br : List Nat) (s : St) (ws : List String) : Cfg × St × String :=
   match ws with
   | ["sub", p, ce, cf, se, sf, t] => match nats [p, cf, sf, t] with
     | some [p, cf, sf, t] => let (s', r) := addSub s p (parseEnt ce) cf (parseEnt se) sf t; (cfg, s', b r)
@@ -17,7 +17,7 @@ def answer (cfg : Cfg) (s : St) (ws : List String) : Cfg × St × String :=
     | some [p, cd, cf, sf] => let (s', r) := delBind cfg s p cd (parseEnt ce) cf (parseEnt se) sf; (cfg, s', b r)
     | _ => (cfg, s, "bad-op")
   | ["drop", p] => match p.toNat? with
-    | some p => (cfg, dropPeer cfg s p, "done")
+    | some p => (cfg, removePeer cfg s p, "done")
     | none => (cfg, s, "bad-op")
   | ["dropent", p, e] => match p.toNat? with
     | some p => (cfg, dropEntities cfg s p (parseEnts e), "done")
@@ -25,9 +25,13 @@ def answer (cfg : Cfg) (s : St) (ws : List String) : Cfg × St × String :=
   | ["addent", p, e] => match p.toNat? with
     | some p => (cfg, addEntity s p (parseEnt e), "done")
     | none => (cfg, s, "bad-op")
+  | ["bareent", p, e] => match p.toNat? with
+    | some p => (cfg, bareEntity s p (parseEnt e), "done")
+    | none => (cfg, s, "bad-op")
   | ["discover", _] => (cfg, s, "done")
   | ["reconnect", p] => match p.toNat? with
-    | some p => (cfg, { s with rem := fun q => if q = p then remoteFeats else s.rem q }, "done")
+    | some p => (cfg, { s with rem := fun q => if q = p then remoteFeats else s.rem q,
+                               bare := fun q => if q = p then [] else s.bare q }, "done")
     | none => (cfg, s, "bad-op")
   | ["subspass", p, e] => match p.toNat? with
     | some p => (cfg, subsPass s p (parseEnt e), "done")
@@ -42,10 +46,10 @@ def answer (cfg : Cfg) (s : St) (ws : List String) : Cfg × St × String :=
     | some p => (cfg, s, showL (bindsOf s p))
     | none => (cfg, s, "bad-op")
   | ["notify", se, sf] => match sf.toNat? with
-    | some sf => (cfg, s, toString ((notifyTargets s (parseEnt se) sf).map fun (p, e, f) => s!"{p}:{showEnt e}/{f}"))
+    | some sf => (cfg, s, toString ((delivered s (br.contains ·) (parseEnt se) sf).map fun (p, e, f) => s!"{p}:{showEnt e}/{f}"))
     | none => (cfg, s, "bad-op")
   | ["update", se, sf] => match sf.toNat? with
-    | some sf => (cfg, s, toString ((notifyTargets s (parseEnt se) sf).map fun (p, e, f) => s!"{p}:{showEnt e}/{f}"))
+    | some sf => (cfg, s, toString ((delivered s (br.contains ·) (parseEnt se) sf).map fun (p, e, f) => s!"{p}:{showEnt e}/{f}"))
     | none => (cfg, s, "bad-op")
   | ["write", p, ce, cf, se, sf] => match nats [p, cf, sf] with
     -- a remote write: unknown source feature -> no answer; unknown / unwritable destination or no binding -> error
@@ -55,7 +59,7 @@ def answer (cfg : Cfg) (s : St) (ws : List String) : Cfg × St × String :=
       if (findF (s.rem p) ce cf).isNone then (cfg, s, "none")
       else if !(writable.contains (se, sf)) then (cfg, s, "denied")
       else if s.binds.any (·.is p ce cf se sf) then
-        (cfg, s, toString ((notifyTargets s se sf).map fun (p, e, f) => s!"{p}:{showEnt e}/{f}"))
+        (cfg, s, toString ((delivered s (br.contains ·) se sf).map fun (p, e, f) => s!"{p}:{showEnt e}/{f}"))
       else (cfg, s, "denied")
     | _ => (cfg, s, "bad-op")
   | ["cfg", a, b', c, d] => match nats [a, b', c, d] with
@@ -65,19 +69,27 @@ def answer (cfg : Cfg) (s : St) (ws : List String) : Cfg × St × String :=
   | ["reset"] => (cfg, init, "reset")
   | _ => (cfg, s, "bad-op")
 /-- `save` / `restore`: one slot for the state, so that the harness can ask for both orders of two operations -/
-partial def loop (h : IO.FS.Stream) (out : IO.FS.Stream) (cfg : Cfg) (s saved : St) : IO Unit := do
+partial def loop (h : IO.FS.Stream) (out : IO.FS.Stream) (cfg : Cfg) (br : List Nat) (s saved : St) : IO Unit := do
   let line ← h.getLine
   if line.isEmpty then out.flush; return ()
   let ws := stripDecor ((line.trimAscii.toString.splitOn " ").filter (· ≠ ""))
   if ws == ["save"] then
     out.putStrLn "saved"; out.flush
-    loop h out cfg s s
+    loop h out cfg br s s
   else if ws == ["restore"] then
     out.putStrLn "restored"; out.flush
-    loop h out cfg saved saved
-  else
-    let (cfg', s', ans) := answer cfg s ws
-    out.putStrLn ans
-    out.flush
-    loop h out cfg' s' saved
-def main : IO Unit := do loop (← IO.getStdin) (← IO.getStdout) {} init init
+    loop h out cfg br saved saved
+  else if ws == ["reset"] then
+    out.putStrLn "reset"; out.flush
+    loop h out cfg [] init saved
+  else match ws with
+    -- `broken k`: the connection of peer k cannot be written to (every send to it fails)
+    | ["broken", k] =>
+      out.putStrLn "done"; out.flush
+      loop h out cfg ((k.toNat?.getD 0) :: br) s saved
+    | _ =>
+      let (cfg', s', ans) := answer cfg br s ws
+      out.putStrLn ans
+      out.flush
+      loop h out cfg' br s' saved
+def main : IO Unit := do loop (← IO.getStdin) (← IO.getStdout) {} [] init init
